@@ -166,9 +166,11 @@ def run(facts, res):
         sf = facts.body("melda::Melda::stage_full_snapshot")
         if sf is not None:
             ok = False
-            for bi, t in sf.calls():
-                if t.callee is not None and t.callee.target() == recon:
-                    ok = contains_call(arg_term(sf, t, 3, 20), "get_winner")
+            from ..common import members_of as _mo12
+            for mb_ in _mo12(facts, sf):
+                for bi, t in mb_.calls():
+                    if t.callee is not None and t.callee.target() == recon:
+                        ok = contains_call(arg_term(mb_, t, 3, 20), "get_winner")
             res.instance("Q2", "stage_full_snapshot reconstructs at get_winner(): %s" % ok, sf.loc())
             if not ok:
                 res.violation("Q2", "stage_full_snapshot|not-at-winner", "stage_full_snapshot does not snapshot the view at the current winner", sf.loc())
@@ -221,6 +223,21 @@ def run(facts, res):
                 if hb is None or not hb.in_repo() or hb.public or hb.kind == "closure" or hb.impl_adt != c.impl_adt:
                     continue
                 for m in members_of(facts, hb):
+                    mfl = flow_of(m)
+                    mgw = {b2 for b2, t2 in m.calls() if t2.callee is not None and t2.callee.target() == "revisiontree::RevisionTree::get_winner"}
+                    if mgw & mfl.call_blocks(mfl.local_sources(0)):
+                        from_winner = True
+                    mdu = du_of(m)
+                    for blk in m.blocks:
+                        for st in blk.stmts:
+                            if st.kind == "assign" and st.rv.kind == "binop" and st.rv.j["op"] in ("Gt", "Ge", "Lt", "Le"):
+                                tt = mdu.rvalue_term(st.rv, 12)
+                                if contains_call(tt, "len") and contains_call(tt, "get_leafs"):
+                                    guarded = True
+            # ... or by an adaptor chain of commit itself (a helper spliced in by the inliner): the closures whose results flow into the
+            # list are read the same way
+            if not from_winner or not (guarded or direct):
+                for m in facts.closures_of(c.path):
                     mfl = flow_of(m)
                     mgw = {b2 for b2, t2 in m.calls() if t2.callee is not None and t2.callee.target() == "revisiontree::RevisionTree::get_winner"}
                     if mgw & mfl.call_blocks(mfl.local_sources(0)):
